@@ -323,8 +323,9 @@ def default_modifier(op, **kwargs):
         if att is None or np.allclose(att, 1):
             pass  # nothing to do
         else:
-            # update T operator
-            op = operators.T(op.alpha * att, op.phi, name=op.name, duration=op.duration)
+            # update T operator (align leading axes)
+            alpha, att = common.expand_arrays(op.alpha, att, append=True)
+            op = operators.T(alpha * att, op.phi, name=op.name, duration=op.duration)
             op.name += "#"
 
     if np.any(op.duration > 0):
